@@ -20,7 +20,7 @@ TRUSTED = ['Coq 8.16.1 kernel + vm_compute', 'harness/p02.py oracle (tableschema
 ASSUMES = ['conforming typed input', 'well-typed parameters (domain of the property)']
 
 KINDS = ['restricted_set_type', 'restricted_delete', 'restricted_rename', 'add_field', 'add_computed', 'select', 'delete', 'rename', 'find_replace', 'set_type', 'validate', 'filter', 'sort', 'dedup',
-         'unpivot', 'concat', 'concat_pk', 'duplicate', 'join', 'join_keep', 'join_fmt', 'join_self', 'frac_last', 'add_computed_mixed', 'concat_nonadj', 'delete_res', 'update_resource', 'update_schema', 'update_package', 'row_fn']
+         'unpivot', 'concat', 'concat_pk', 'duplicate', 'join', 'join_keep', 'join_fmt', 'join_self', 'frac_last', 'add_computed_mixed', 'concat_nonadj', 'add_constant', 'delete_res', 'update_resource', 'update_schema', 'update_package', 'row_fn']
 
 
 def base_rows(i, n):
@@ -43,6 +43,11 @@ def gen_cases(rng, tier):
         cases.append({'kind': 'pipeline', 'sizes': [6, 4], 'steps': [{'t': 'join_keep', 'a': a_}, {'t': 'restricted_set_type', 'a': a_}]})
     for a_ in range(4):
         cases.append({'kind': 'pipeline', 'sizes': [4, 3], 'steps': [{'t': 'frac_last', 'a': 0}, {'t': 'add_computed_mixed', 'a': a_}]})
+    for a_ in range(11):
+        cases.append({'kind': 'pipeline', 'sizes': [2], 'steps': [{'t': 'add_constant', 'a': a_}]})
+    # more than nine bare iterables in one flow (automatic names res_1 .. res_12), then steps that address some by name
+    cases.append({'kind': 'pipeline', 'source': 'iterables12', 'sizes': [2] * 12, 'steps': []})
+    cases.append({'kind': 'pipeline', 'source': 'iterables12', 'sizes': [2] * 12, 'steps': [{'t': 'update_resource', 'a': 0}]})
     cases.append({'kind': 'pipeline', 'sizes': [3, 2, 4], 'steps': [{'t': 'concat_nonadj', 'a': 0}]})
     cases.append({'kind': 'pipeline', 'sizes': [3, 2, 4, 1], 'steps': [{'t': 'concat_nonadj', 'a': 0}, {'t': 'add_field', 'a': 1}]})
     # plain iterable sources longer than the inference sample whose column shows its first value late (or never):
@@ -64,6 +69,8 @@ def build(case):
            for i in range(len(sizes))]
     if case.get('source') == 'iterable':
         res = [{'name': 'res_1', 'fields': ['id', 'grp', 'late']}]
+    if case.get('source') == 'iterables12':
+        res = [{'name': 'res_%d' % (i + 1), 'fields': ['id', 'f%d' % i], 'idtype': 'integer'} for i in range(12)]
     steps = []
     uid = [0]
 
@@ -98,6 +105,14 @@ def build(case):
             # one step over all resources: each resource's new field is typed from that resource's own source columns
             nm = fresh('acm')
             steps.append(DF.add_computed_field([{'operation': ['sum', 'max', 'min', 'multiply'][a], 'target': nm, 'source': ['id']}]))
+            for r in res:
+                r['fields'].append(nm)
+        elif t == 'add_constant':
+            # a constant of every kind of value: whatever type the step declares for it must hold the value
+            nm = fresh('k')
+            value = [True, False, 7, decimal.Decimal('1.5'), datetime.date(2020, 2, 3), 'txt', None, [1, 2], {'a': 1}, datetime.datetime(2020, 1, 2, 3, 4, 5),
+                     1.5][(a + uid[0]) % 11]
+            steps.append(DF.add_computed_field([{'operation': 'constant', 'target': nm, 'with': value}]))
             for r in res:
                 r['fields'].append(nm)
         elif t == 'select' and allhave('id') and allhave('grp'):
@@ -240,11 +255,22 @@ def iterable_rows(case):
     return [{'id': j, 'grp': 'g%d' % (j % 3), 'late': (val(j) if k is not None and j >= k else None)} for j in range(n)]
 
 
+class Many(list):
+    """several source links"""
+
+
 def typed_source(case):
+    if case.get('source') == 'iterables12':
+        return Many([[{'id': j, 'f%d' % i: 'v%d' % j} for j in range(2)] for i in range(12)])
     if case.get('source') == 'iterable':
         return iterable_rows(case)
     return Src([{'name': 'res_%d' % (i + 1), 'fields': [{'name': a, 'type': b} for a, b in TYPES], 'rows': base_rows(i, n)}
                 for i, n in enumerate(case['sizes'])])
+
+
+def links_of(case):
+    src = typed_source(case)
+    return list(src) if isinstance(src, Many) else [src]
 
 
 def run_impl(case):
@@ -256,7 +282,7 @@ def run_impl(case):
         out['may_reject'] = True
     try:
         with quiet():
-            ds = Flow(typed_source(case), *build(case)).datastream()
+            ds = Flow(*links_of(case), *build(case)).datastream()
             rows = [[dict(r) for r in res] for res in ds.res_iter]
         dp = ds.dp.descriptor
         out['ndesc'] = len(dp['resources'])
@@ -306,7 +332,7 @@ def run_impl(case):
         return out
     try:
         with quiet():
-            Flow(typed_source(case), *build(case)).results()
+            Flow(*links_of(case), *build(case)).results()
         out['results_ok'] = True
     except Exception as e:
         c = e
